@@ -1021,6 +1021,12 @@ def est_mfpca(ctx, seed, method, normalize, kind, uni, user_weights=False):
         _, again = q.call(f"{tag}.transform(None,{m}) [repeat]", lambda m=m: est.transform(None, method=m))
         if first[m + "/None"] is not None and again is not None:
             q.same(f"{tag}.transform(None,{m}) repeated", first[m + "/None"], again)
+    if first.get("NumInt/None") is not None:
+        # stored-data scores, then the scores of OTHER data, then the stored-data scores again: the third call repeats the first
+        stb, _ = q.call(f"{tag}.transform(data B,NumInt)", lambda: est.transform(data_b, method="NumInt"))
+        _, third = q.call(f"{tag}.transform(None,NumInt) [after transform(data B)]", lambda: est.transform(None, method="NumInt"))
+        if third is not None:
+            q.same(f"{tag}.transform(None,NumInt) repeated after the scores of another dataset were asked", first["NumInt/None"], third)
     if first.get("NumInt") is not None:
         scores = np.array(first["NumInt"], dtype=float).copy()
         _, inv1 = q.call(f"{tag}.inverse_transform", lambda: est.inverse_transform(scores), extra_inputs=[("scores", scores)])
